@@ -32,6 +32,17 @@ type c6Config struct {
 	PermutedV bool  `json:"permuted_v"`
 	Shift     bool  `json:"shift"`
 	MaxNodes  int   `json:"max_nodes"`
+	// Wrapper: a WrapperCache over a sliding-window cache (layer type 0: even layers) and a plain causal cache
+	// (layer type 1: odd layers), as models with local and global attention layers use it; Window applies to type 0
+	Wrapper bool `json:"wrapper,omitempty"`
+}
+
+// windowOf: the sliding window that applies to a layer (0: none)
+func (cfg c6Config) windowOf(layer int) int32 {
+	if cfg.Wrapper && layer%2 == 1 {
+		return 0
+	}
+	return cfg.Window
 }
 
 type c6Op struct {
@@ -65,8 +76,12 @@ const (
 )
 
 type c6State struct {
-	cfg     c6Config
-	c       *Causal
+	cfg c6Config
+	c   *Causal
+	// wrapper configurations: c is the windowed cache, c2 the causal one, top the WrapperCache over both;
+	// otherwise c2 is nil and top is c
+	c2      *Causal
+	top     Cache
 	b       *fakeml.Backend
 	ref     map[int][]int // seq -> tags, index = position
 	edited  map[int]bool  // history of seq was edited since it was last continued
@@ -96,31 +111,70 @@ func c6New(cfg c6Config) *c6State {
 	} else {
 		c = NewCausalCache(sf)
 	}
-	c.Init(b, ml.DTypeF16, cfg.MaxSeq, cfg.Capacity, cfg.MaxBatch)
-	return &c6State{cfg: cfg, c: c, b: b, ref: map[int][]int{}, edited: map[int]bool{}, nextTag: 1, expired: map[int]map[int]bool{}}
+	st := &c6State{cfg: cfg, c: c, b: b, ref: map[int][]int{}, edited: map[int]bool{}, nextTag: 1, expired: map[int]map[int]bool{}}
+	st.top = c
+	if cfg.Wrapper {
+		st.c2 = NewCausalCache(sf)
+		st.top = NewWrapperCache(c, st.c2)
+	}
+	st.top.Init(b, ml.DTypeF16, cfg.MaxSeq, cfg.Capacity, cfg.MaxBatch)
+	return st
+}
+
+// setLayer selects the layer (and, under the wrapper, the cache that serves it) for Put and Get
+func (s *c6State) setLayer(layer int) {
+	s.top.SetLayer(layer)
+	if w, ok := s.top.(*WrapperCache); ok {
+		w.SetLayerType(layer % 2)
+	}
+}
+
+// caches: the Causal caches of the state (one, or the two under the wrapper)
+func (s *c6State) caches() []*Causal {
+	if s.c2 != nil {
+		return []*Causal{s.c, s.c2}
+	}
+	return []*Causal{s.c}
+}
+
+// cacheOf: the Causal cache that serves a layer
+func (s *c6State) cacheOf(layer int) *Causal {
+	if s.c2 != nil && layer%2 == 1 {
+		return s.c2
+	}
+	return s.c
+}
+
+func cloneCausal(src *Causal) *Causal {
+	c := *src
+	c.cells = make([]cacheCell, len(src.cells))
+	for i, cell := range src.cells {
+		c.cells[i] = cacheCell{pos: cell.pos, sequences: slices.Clone(cell.sequences)}
+	}
+	c.cellRanges = maps.Clone(src.cellRanges)
+	c.keys = map[int]ml.Tensor{}
+	c.values = map[int]ml.Tensor{}
+	for k, v := range src.keys {
+		c.keys[k] = v.(*fakeml.Tensor).Clone()
+	}
+	for k, v := range src.values {
+		c.values[k] = v.(*fakeml.Tensor).Clone()
+	}
+	c.ctxs = maps.Clone(src.ctxs)
+	c.curMask = nil
+	c.curSequences = nil
+	c.curPositions = nil
+	return &c
 }
 
 func (s *c6State) clone() *c6State {
 	n := *s
-	c := *s.c
-	c.cells = make([]cacheCell, len(s.c.cells))
-	for i, cell := range s.c.cells {
-		c.cells[i] = cacheCell{pos: cell.pos, sequences: slices.Clone(cell.sequences)}
+	n.c = cloneCausal(s.c)
+	n.top = n.c
+	if s.c2 != nil {
+		n.c2 = cloneCausal(s.c2)
+		n.top = NewWrapperCache(n.c, n.c2)
 	}
-	c.cellRanges = maps.Clone(s.c.cellRanges)
-	c.keys = map[int]ml.Tensor{}
-	c.values = map[int]ml.Tensor{}
-	for k, v := range s.c.keys {
-		c.keys[k] = v.(*fakeml.Tensor).Clone()
-	}
-	for k, v := range s.c.values {
-		c.values[k] = v.(*fakeml.Tensor).Clone()
-	}
-	c.ctxs = maps.Clone(s.c.ctxs)
-	c.curMask = nil
-	c.curSequences = nil
-	c.curPositions = nil
-	n.c = &c
 	n.ref = map[int][]int{}
 	for k, v := range s.ref {
 		n.ref[k] = slices.Clone(v)
@@ -160,9 +214,11 @@ func (s *c6State) layout() string {
 // where maps every live cell's identity (position and owning sequences) to its index.
 func (s *c6State) where() map[string]int {
 	m := map[string]int{}
-	for i, c := range s.c.cells {
-		if len(c.sequences) > 0 {
-			m[fmt.Sprint(c.pos, c.sequences)] = i
+	for ci, cc := range s.caches() {
+		for i, c := range cc.cells {
+			if len(c.sequences) > 0 {
+				m[fmt.Sprint(ci, c.pos, c.sequences)] = i
+			}
 		}
 	}
 	return m
@@ -208,7 +264,7 @@ func (s *c6State) apply(op c6Op) (fail *c6Fail) {
 		}
 	}()
 	s.hist = append(s.hist, op)
-	c := s.c
+	c := s.top
 	clear := func(seq int) *c6Fail {
 		if err := c.Remove(seq, 0, math.MaxInt32); err != nil {
 			return &c6Fail{clause: "clear-error", msg: fmt.Sprintf("Remove(%d,0,MaxInt32) failed: %v", seq, err)}
@@ -275,8 +331,8 @@ func (s *c6State) apply(op c6Op) (fail *c6Fail) {
 		if !errors.Is(err, ErrKvCacheFull) {
 			return &c6Fail{clause: "forward-error", msg: err.Error()}
 		}
-		if s.cfg.Window == 0 && refLive+len(tags) <= len(c.cells) {
-			return &c6Fail{clause: "spurious-full", msg: fmt.Sprintf("cache reported full with %d live entries + %d new <= %d cells", refLive, len(tags), len(c.cells))}
+		if s.cfg.Window == 0 && refLive+len(tags) <= len(s.c.cells) {
+			return &c6Fail{clause: "spurious-full", msg: fmt.Sprintf("cache reported full with %d live entries + %d new <= %d cells", refLive, len(tags), len(s.c.cells))}
 		}
 		if moved(before, s.where()) {
 			s.defrag = true
@@ -291,7 +347,7 @@ func (s *c6State) apply(op c6Op) (fail *c6Fail) {
 	}
 	n := len(tags)
 	for layer := 0; layer < c6Layers; layer++ {
-		c.SetLayer(layer)
+		s.setLayer(layer)
 		kd := make([]float32, c6HeadDim*c6Heads*n)
 		vd := make([]float32, c6HeadDim*c6Heads*n)
 		for i := 0; i < n; i++ {
@@ -324,7 +380,7 @@ func (s *c6State) apply(op c6Op) (fail *c6Fail) {
 	}
 	// what does the cache expose for every token of this batch, on every layer?
 	for layer := 0; layer < c6Layers; layer++ {
-		c.SetLayer(layer)
+		s.setLayer(layer)
 		k, v, mask := c.Get(ctx)
 		ctx.Forward(k, v, mask).Compute(k, v, mask)
 		if f := s.checkVisible(layer, batch, k.(*fakeml.Tensor), v.(*fakeml.Tensor), mask.(*fakeml.Tensor)); f != nil {
@@ -339,28 +395,32 @@ func (s *c6State) apply(op c6Op) (fail *c6Fail) {
 // checkAll probes every live sequence with a read-only look at the cache metadata and data:
 // every reference entry must be found in a cell of its sequence with the right position and data.
 func (s *c6State) checkAll(when string) *c6Fail {
-	c := s.c
-	for seq, l := range s.ref {
-		for p, tag := range l {
-			if s.cfg.Window > 0 {
-				continue // windowed caches may legitimately have dropped old entries
-			}
-			found := 0
-			for i, cell := range c.cells {
-				if slices.Contains(cell.sequences, seq) && cell.pos == int32(p) {
-					found++
-					for layer := 0; layer < c6Layers; layer++ {
-						if kt, ok := c.keys[layer]; ok {
-							got := kt.(*fakeml.Tensor).At(0, 0, i)
-							if got != kval(tag, layer, 0, 0, int32(p)) {
-								return &c6Fail{clause: "wrong-data-" + when, msg: fmt.Sprintf("cell %d (seq %d pos %d) holds key %v, expected tag %d", i, seq, p, got, tag)}
+	for ci, c := range s.caches() {
+		if c.windowSize != math.MaxInt32 {
+			continue // windowed caches may legitimately have dropped old entries
+		}
+		for seq, l := range s.ref {
+			for p, tag := range l {
+				found := 0
+				for i, cell := range c.cells {
+					if slices.Contains(cell.sequences, seq) && cell.pos == int32(p) {
+						found++
+						for layer := 0; layer < c6Layers; layer++ {
+							if s.cacheOf(layer) != c {
+								continue
+							}
+							if kt, ok := c.keys[layer]; ok {
+								got := kt.(*fakeml.Tensor).At(0, 0, i)
+								if got != kval(tag, layer, 0, 0, int32(p)) {
+									return &c6Fail{clause: "wrong-data-" + when, msg: fmt.Sprintf("cache %d cell %d (seq %d pos %d) holds key %v, expected tag %d", ci, i, seq, p, got, tag)}
+								}
 							}
 						}
 					}
 				}
-			}
-			if found != 1 {
-				return &c6Fail{clause: "missing-" + when, msg: fmt.Sprintf("seq %d pos %d is stored in %d cells", seq, p, found)}
+				if found != 1 {
+					return &c6Fail{clause: "missing-" + when, msg: fmt.Sprintf("cache %d: seq %d pos %d is stored in %d cells", ci, seq, p, found)}
+				}
 			}
 		}
 	}
@@ -427,7 +487,7 @@ func (s *c6State) checkVisible(layer int, batch input.Batch, k, v, mask *fakeml.
 		seq, pos := batch.Sequences[i], batch.Positions[i]
 		var want []ent
 		for p, tag := range s.ref[seq] {
-			if int32(p) <= pos && (s.cfg.Window == 0 || int32(p) >= pos-s.cfg.Window) {
+			if int32(p) <= pos && (s.cfg.windowOf(layer) == 0 || int32(p) >= pos-s.cfg.windowOf(layer)) {
 				want = append(want, ent{tag, int32(p)})
 			}
 		}
@@ -465,7 +525,7 @@ func (s *c6State) checkVisible(layer int, batch input.Batch, k, v, mask *fakeml.
 					}
 				}
 			}
-			expiredOnly := s.cfg.Window > 0
+			expiredOnly := s.cfg.windowOf(layer) > 0
 			for _, e := range want {
 				if !visSet[e] {
 					missing++
@@ -587,47 +647,49 @@ func (s *c6State) fingerprint() string {
 			fmt.Fprintf(&b, "E%d", q)
 		}
 	}
-	b.WriteByte('|')
-	for _, cell := range s.c.cells {
-		if len(cell.sequences) == 0 {
-			b.WriteString("-;")
-			continue
-		}
-		sq := slices.Clone(cell.sequences)
-		sort.Ints(sq)
-		fmt.Fprintf(&b, "%d%v;", cell.pos, sq)
-	}
-	b.WriteByte('|')
-	rq := make([]int, 0, len(s.c.cellRanges))
-	for q := range s.c.cellRanges {
-		rq = append(rq, q)
-	}
-	sort.Ints(rq)
-	for _, q := range rq {
-		r := s.c.cellRanges[q]
-		fmt.Fprintf(&b, "%d:%d-%d;", q, r.min, r.max)
-	}
-	b.WriteByte('|')
-	// data of every location (live or not) of layer 0; the other elements are functions of it unless a
-	// violation has already been reported
-	for layer := 0; layer < c6Layers; layer++ {
-		if kt, ok := s.c.keys[layer]; ok {
-			raw := kt.(*fakeml.Tensor).Raw()
-			for i := 0; i < len(raw); i += c6HeadDim * c6Heads {
-				kv := int(raw[i])
-				fmt.Fprintf(&b, "%d.%d,", name(kv/8192), kv%1024)
+	for _, cc := range s.caches() {
+		b.WriteByte('|')
+		for _, cell := range cc.cells {
+			if len(cell.sequences) == 0 {
+				b.WriteString("-;")
+				continue
 			}
+			sq := slices.Clone(cell.sequences)
+			sort.Ints(sq)
+			fmt.Fprintf(&b, "%d%v;", cell.pos, sq)
 		}
-		b.WriteByte('/')
-		if vt, ok := s.c.values[layer]; ok {
-			raw := vt.(*fakeml.Tensor).Raw()
-			if s.cfg.PermutedV {
-				for i := 0; i < len(s.c.cells); i++ {
-					fmt.Fprintf(&b, "%d,", name(int(raw[i])/8))
-				}
-			} else {
+		b.WriteByte('|')
+		rq := make([]int, 0, len(cc.cellRanges))
+		for q := range cc.cellRanges {
+			rq = append(rq, q)
+		}
+		sort.Ints(rq)
+		for _, q := range rq {
+			r := cc.cellRanges[q]
+			fmt.Fprintf(&b, "%d:%d-%d;", q, r.min, r.max)
+		}
+		b.WriteByte('|')
+		// data of every location (live or not) of layer 0; the other elements are functions of it unless a
+		// violation has already been reported
+		for layer := 0; layer < c6Layers; layer++ {
+			if kt, ok := cc.keys[layer]; ok {
+				raw := kt.(*fakeml.Tensor).Raw()
 				for i := 0; i < len(raw); i += c6HeadDim * c6Heads {
-					fmt.Fprintf(&b, "%d,", name(int(raw[i])/8))
+					kv := int(raw[i])
+					fmt.Fprintf(&b, "%d.%d,", name(kv/8192), kv%1024)
+				}
+			}
+			b.WriteByte('/')
+			if vt, ok := cc.values[layer]; ok {
+				raw := vt.(*fakeml.Tensor).Raw()
+				if s.cfg.PermutedV {
+					for i := 0; i < len(cc.cells); i++ {
+						fmt.Fprintf(&b, "%d,", name(int(raw[i])/8))
+					}
+				} else {
+					for i := 0; i < len(raw); i += c6HeadDim * c6Heads {
+						fmt.Fprintf(&b, "%d,", name(int(raw[i])/8))
+					}
 				}
 			}
 		}
@@ -692,6 +754,10 @@ func c6Configs(thorough bool) []c6Config {
 									continue
 								}
 								l = append(l, c6Config{MaxSeq: ms, Capacity: cp, MaxBatch: mb, CachePad: v[0], MaskPad: v[1], Window: w, PermutedV: pv, Shift: sh, MaxNodes: v[2]})
+								if w > 0 && vi == 0 {
+									// the same windowed cache next to a causal one under a WrapperCache
+									l = append(l, c6Config{MaxSeq: ms, Capacity: cp, MaxBatch: mb, CachePad: v[0], MaskPad: v[1], Window: w, PermutedV: pv, Shift: sh, MaxNodes: v[2], Wrapper: true})
+								}
 							}
 						}
 					}
@@ -734,7 +800,7 @@ func ZZVerifC06() {
 	for i := range cfgs {
 		items[i] = fmt.Sprint(i)
 	}
-	r.Rule(fmt.Sprintf("breadth-first search over all histories of Forward (every composition of <= maxBatch tokens over the sequences, each continuing its sequence), CopyPrefix (every src,dst,len), Resume (CanResume+truncate at every prefix length) and Remove of every middle range up to depth %d on the real kvcache.Causal (fakeml lazy backend, 2 layers, 2x2 head layout), for every configuration of the grid; states deduplicated on a canonical fingerprint of the whole cache (cells, ranges, all stored data); plus, for caches of N cells filled by N single-token sequences, every subset of removed sequences followed by every batch size (all hole patterns a defragmentation can meet); non-trivial = distinct states in which some cell is shared by two sequences, a position was shifted, or cells were moved by defragmentation", depth))
+	r.Rule(fmt.Sprintf("breadth-first search over all histories of Forward (every composition of <= maxBatch tokens over the sequences, each continuing its sequence), CopyPrefix (every src,dst,len), Resume (CanResume+truncate at every prefix length) and Remove of every middle range up to depth %d on the real kvcache.Causal - plain, sliding-window, and a WrapperCache over a sliding-window cache (even layers) and a causal cache (odd layers) - (fakeml lazy backend, 2 layers, 2x2 head layout), for every configuration of the grid; states deduplicated on a canonical fingerprint of the whole cache (cells, ranges, all stored data); plus, for caches of N cells filled by N single-token sequences, every subset of removed sequences followed by every batch size (all hole patterns a defragmentation can meet); non-trivial = distinct states in which some cell is shared by two sequences, a position was shifted, or cells were moved by defragmentation", depth))
 	r.Assume("the driver uses the cache the way the Cache interface documents and the runners do: positions continue the sequence; a sequence is cut back to a prefix only after CanResume(seq, prefixLen) said yes (else it is cleared), and that is also the first thing done with the target of a CopyPrefix; a middle range is removed without asking (context shift); after a Remove error the sequence is cleared",
 		"window semantics are those of the mask definition: entries with pos >= p - window are in the window",
 		"a sequence never outgrows the per-sequence capacity (the runner shifts before that)",
@@ -794,6 +860,9 @@ func ZZVerifC06() {
 						}
 						if n.defrag && !f.expiredOnly {
 							sig += "/after-defrag"
+						}
+						if cfg.Wrapper && !f.expiredOnly {
+							sig += "/wrapper"
 						}
 						// which kinds of history edits were involved
 						kinds := map[string]bool{}
